@@ -61,7 +61,10 @@ enum ClassAtom {
 #[derive(Debug, Clone)]
 struct ClassSet {
     codepoints: CodePointSet,
+    // Strings which are not a single code point. Single code points live in `codepoints`.
     alternatives: ClassSetAlternativeStrings,
+    // The static MayContainStrings of the expression, which forbids negation.
+    may_contain_strings: bool,
 }
 
 impl ClassSet {
@@ -69,7 +72,23 @@ impl ClassSet {
         ClassSet {
             codepoints: CodePointSet::new(),
             alternatives: ClassSetAlternativeStrings::new(),
+            may_contain_strings: false,
         }
+    }
+
+    /// Build a class set from a list of strings: strings of one code point are class members
+    /// like any other character, the rest (including the empty string) are alternatives.
+    fn from_strings(strings: impl IntoIterator<Item = Box<[CodePoint]>>, may: bool) -> Self {
+        let mut result = ClassSet::new();
+        for string in strings {
+            if string.len() == 1 {
+                result.codepoints.add_one(string[0]);
+            } else if !result.alternatives.0.contains(&string) {
+                result.alternatives.0.push(string);
+            }
+        }
+        result.may_contain_strings = may;
+        result
     }
 
     fn node(self, icase: bool, negate_set: bool) -> ir::Node {
@@ -83,13 +102,22 @@ impl ClassSet {
             invert: negate_set,
             cps: codepoints,
         });
-        if self.alternatives.0.is_empty() {
-            bracket
-        } else if codepoints_empty {
-            self.alternatives.into_node(icase)
-        } else {
-            make_alt(Vec::from([self.alternatives.into_node(icase), bracket]))
+        // Longer strings are tried first, then single characters, and the empty string last.
+        let mut alternatives = self.alternatives;
+        let has_empty_string = alternatives.0.iter().any(|s| s.is_empty());
+        alternatives.0.retain(|s| !s.is_empty());
+        let has_strings = !alternatives.0.is_empty();
+        let mut nodes = Vec::new();
+        if has_strings {
+            nodes.push(alternatives.into_node(icase));
         }
+        if !codepoints_empty || negate_set || !(has_strings || has_empty_string) {
+            nodes.push(bracket);
+        }
+        if has_empty_string {
+            nodes.push(ir::Node::Empty);
+        }
+        make_alt(nodes)
     }
 
     fn union_operand(&mut self, operand: ClassSetOperand) {
@@ -102,15 +130,23 @@ impl ClassSet {
             }
             ClassSetOperand::Class(class) => {
                 self.codepoints.add_set(class.codepoints);
-                self.alternatives.extend(class.alternatives);
-            }
-            ClassSetOperand::ClassStringDisjunction(s) => {
-                self.alternatives.extend(s);
+                for string in class.alternatives {
+                    if !self.alternatives.0.contains(&string) {
+                        self.alternatives.0.push(string);
+                    }
+                }
+                // A union may contain strings if any operand may.
+                self.may_contain_strings |= class.may_contain_strings;
             }
         }
     }
 
     fn intersect_operand(&mut self, operand: ClassSetOperand) {
+        // An intersection may contain strings only if every operand may.
+        self.may_contain_strings &= match &operand {
+            ClassSetOperand::Class(class) => class.may_contain_strings,
+            _ => false,
+        };
         match operand {
             ClassSetOperand::ClassSetCharacter(c) => {
                 if self.codepoints.contains(c) {
@@ -162,16 +198,6 @@ impl ClassSet {
                 self.alternatives.intersect(&class.alternatives);
                 self.alternatives.extend(retained_alternatives);
             }
-            ClassSetOperand::ClassStringDisjunction(s) => {
-                let mut retained = CodePointSet::new();
-                for alternative in &s.0 {
-                    if alternative.len() == 1 && self.codepoints.contains(alternative[0]) {
-                        retained.add_one(alternative[0]);
-                    }
-                }
-                self.codepoints = retained;
-                self.alternatives.intersect(&s);
-            }
         }
     }
 
@@ -209,16 +235,6 @@ impl ClassSet {
                 self.alternatives.remove(&alternatives_removed);
                 self.alternatives.remove(&class.alternatives);
             }
-            ClassSetOperand::ClassStringDisjunction(s) => {
-                let mut to_remove = CodePointSet::new();
-                for alternative in &s.0 {
-                    if alternative.len() == 1 && self.codepoints.contains(alternative[0]) {
-                        to_remove.add_one(alternative[0]);
-                    }
-                }
-                self.codepoints.remove(to_remove.intervals());
-                self.alternatives.remove(&s);
-            }
         }
     }
 }
@@ -229,7 +245,6 @@ enum ClassSetOperand {
     ClassSetCharacter(CodePoint),
     CharacterClassEscape(CodePointSet),
     Class(ClassSet),
-    ClassStringDisjunction(ClassSetAlternativeStrings),
 }
 
 /// A list of strings matching some property, for use in 'v' regular expressions.
@@ -690,10 +705,12 @@ where
                 '[' if self.flags.unicode_sets => {
                     self.consume('[');
                     let negate_set = self.try_consume('^');
-                    result.push(
-                        self.consume_class_set_expression(negate_set)?
-                            .node(self.flags.icase, negate_set),
-                    );
+                    let class_set = self.consume_class_set_expression()?;
+                    // It is a Syntax Error if MayContainStrings of the ClassContents is true.
+                    if negate_set && class_set.may_contain_strings {
+                        return error("Negated class set may contain strings");
+                    }
+                    result.push(class_set.node(self.flags.icase, negate_set));
                 }
 
                 '[' => {
@@ -1036,8 +1053,8 @@ where
     }
 
     // CharacterClass :: ClassContents :: ClassSetExpression
-    // `in_negated_class` forbids string operands. It does not invert the result.
-    fn consume_class_set_expression(&mut self, in_negated_class: bool) -> Result<ClassSet, Error> {
+    // Note this does not apply negation; the caller does.
+    fn consume_class_set_expression(&mut self) -> Result<ClassSet, Error> {
         let mut result = ClassSet::new();
 
         let first = match self.peek() {
@@ -1045,7 +1062,7 @@ where
                 self.consume(']');
                 return Ok(result);
             }
-            Some(_) => self.consume_class_set_operand(in_negated_class)?,
+            Some(_) => self.consume_class_set_operand()?,
             None => {
                 return error("Unbalanced class set bracket");
             }
@@ -1087,7 +1104,7 @@ where
                     match first {
                         ClassSetOperand::ClassSetCharacter(first) => {
                             let ClassSetOperand::ClassSetCharacter(last) =
-                                self.consume_class_set_operand(in_negated_class)?
+                                self.consume_class_set_operand()?
                             else {
                                 return error("Invalid class set range");
                             };
@@ -1120,7 +1137,7 @@ where
                             self.consume(']');
                             return Ok(result);
                         }
-                        Some(_) => self.consume_class_set_operand(in_negated_class)?,
+                        Some(_) => self.consume_class_set_operand()?,
                         None => return error("Unbalanced class set bracket"),
                     };
                     if self.peek() == Some(0x2D /* - */) {
@@ -1128,7 +1145,7 @@ where
                         match operand {
                             ClassSetOperand::ClassSetCharacter(first) => {
                                 let ClassSetOperand::ClassSetCharacter(last) =
-                                    self.consume_class_set_operand(in_negated_class)?
+                                    self.consume_class_set_operand()?
                                 else {
                                     return error("Invalid class set range");
                                 };
@@ -1149,7 +1166,7 @@ where
             // ClassIntersection :: ClassSetOperand && [lookahead ≠ &]
             ClassSetOperator::Intersection => {
                 loop {
-                    let operand = self.consume_class_set_operand(in_negated_class)?;
+                    let operand = self.consume_class_set_operand()?;
                     result.intersect_operand(operand);
                     match self.next() {
                         Some(0x5D /* ] */) => return Ok(result),
@@ -1168,7 +1185,7 @@ where
             // ClassSubtraction :: ClassSubtraction -- ClassSetOperand
             ClassSetOperator::Subtraction => {
                 loop {
-                    let operand = self.consume_class_set_operand(in_negated_class)?;
+                    let operand = self.consume_class_set_operand()?;
                     result.subtract_operand(operand);
                     match self.next() {
                         Some(0x5D /* ] */) => return Ok(result),
@@ -1184,10 +1201,7 @@ where
         }
     }
 
-    fn consume_class_set_operand(
-        &mut self,
-        in_negated_class: bool,
-    ) -> Result<ClassSetOperand, Error> {
+    fn consume_class_set_operand(&mut self) -> Result<ClassSetOperand, Error> {
         use ClassSetOperand::*;
         let Some(cp) = self.peek() else {
             return error("Empty class set operand");
@@ -1202,8 +1216,12 @@ where
                 }
                 self.consume('[');
                 let negate_set = self.try_consume('^');
-                let mut result = self.consume_class_set_expression(negate_set)?;
+                let mut result = self.consume_class_set_expression()?;
                 if negate_set {
+                    // It is a Syntax Error if MayContainStrings of the ClassContents is true.
+                    if result.may_contain_strings {
+                        return error("Negated class set may contain strings");
+                    }
                     result.codepoints = result.codepoints.inverted();
                 }
                 self.depth -= 1;
@@ -1231,18 +1249,14 @@ where
                             match self.peek() {
                                 Some(0x7D /* } */) => {
                                     self.consume('}');
-                                    if !alternative.is_empty() {
-                                        alternatives.push(alternative.into_boxed_slice());
-                                    }
+                                    // Note an alternative may be the empty string.
+                                    alternatives.push(alternative.into_boxed_slice());
                                     break;
                                 }
                                 Some(0x7C /* | */) => {
                                     self.consume('|');
-                                    if !alternative.is_empty() {
-                                        let alternative = mem::take(&mut alternative).into_boxed_slice();
-                                        alternatives.push(alternative);
-
-                                    }
+                                    let alternative = mem::take(&mut alternative).into_boxed_slice();
+                                    alternatives.push(alternative);
                                 }
                                 Some(_) => {
                                     alternative.push(self.consume_class_set_character()?);
@@ -1252,7 +1266,9 @@ where
                                 }
                             }
                         }
-                        Ok(ClassStringDisjunction(ClassSetAlternativeStrings(alternatives)))
+                        // MayContainStrings: some alternative is not a single code point.
+                        let may_contain_strings = alternatives.iter().any(|s| s.len() != 1);
+                        Ok(Class(ClassSet::from_strings(alternatives, may_contain_strings)))
                     }
                     // CharacterClassEscape :: d
                     0x64 /* d */ => {
@@ -1293,9 +1309,8 @@ where
                                     intervals.to_vec(),
                                 )))
                             }
-                            PropertyEscapeKind::StringSet(_) if in_negated_class => error("Invalid character escape"),
                             PropertyEscapeKind::StringSet(strings) => {
-                                Ok(ClassStringDisjunction(ClassSetAlternativeStrings(strings.iter().map(|s| Box::from(*s)).collect())))
+                                Ok(Class(ClassSet::from_strings(strings.iter().map(|s| Box::from(*s)), true)))
                             }
                         }
                     }
